@@ -159,7 +159,7 @@ func mutate(t *rapid.T, in []byte, other []byte) ([]byte, string) {
 		if len(b) == 0 {
 			b = []byte{0}
 		}
-		k := rapid.IntRange(0, 11).Draw(t, "mut")
+		k := rapid.IntRange(0, 12).Draw(t, "mut")
 		pos := rapid.IntRange(0, len(b)-1).Draw(t, "pos")
 		switch k {
 		case 0:
@@ -212,6 +212,9 @@ func mutate(t *rapid.T, in []byte, other []byte) ([]byte, string) {
 			}
 			si := rapid.IntRange(0, len(secs)-1).Draw(t, "sec")
 			switch k {
+			case 12:
+				secs = append(secs[:si:si], secs[si+1:]...)
+				ops = append(ops, "sec-delete")
 			case 8:
 				secs = append(secs[:si+1], secs[si:]...)
 				ops = append(ops, "sec-dup")
@@ -553,7 +556,11 @@ func finish(t *rapid.T, c *Case, r result) {
 func propValid(t *rapid.T) {
 	f := featureSets[rapid.IntRange(0, 2).Draw(t, "feat")]
 	gf, feats := genFeat(f)
-	m := wasmgen.Generate(t, smallCfg(t, gf))
+	cfg := smallCfg(t, gf)
+	if rapid.Bool().Draw(t, "bigger") { // deeper nesting: more labels, more dead code after branches
+		cfg.MaxFuncs, cfg.MaxStmts, cfg.MaxDepth = rapid.IntRange(1, 8).Draw(t, "mf"), rapid.IntRange(3, 8).Draw(t, "ms"), rapid.IntRange(2, 6).Draw(t, "md")
+	}
+	m := wasmgen.Generate(t, cfg)
 	c := &Case{Input: m.Bytes, Features: uint64(feats), Origin: "wasmgen", Valid: true}
 	evid.Journal(c)
 	finish(t, c, RunCase(c))
@@ -574,6 +581,80 @@ func seedBytes(t *rapid.T, label string) ([]byte, string) {
 		return []byte{0, 'a', 's', 'm', 1, 0, 0, 0}, "mutated-corpus"
 	}
 	return b, "mutated-corpus:" + filepath.Base(filepath.Dir(filepath.Dir(p))) + "/" + filepath.Base(p)
+}
+
+// semanticMutation removes or alters one module-level entity of a valid module (memory,
+// tables, a global, a function's type, two bodies swapped, start function) and re-encodes it:
+// the result is usually invalid in exactly one respect, which the validator has to notice.
+func semanticMutation(t *rapid.T, m *wasmenc.Module) ([]byte, string) {
+	c := *m
+	c.Exports = append([]wasmenc.Export{}, m.Exports...)
+	c.Funcs = append([]wasmenc.Func{}, m.Funcs...)
+	dropExports := func(kind byte) {
+		var e []wasmenc.Export
+		for _, x := range c.Exports {
+			if x.Kind != kind {
+				e = append(e, x)
+			}
+		}
+		c.Exports = e
+	}
+	switch rapid.IntRange(0, 6).Draw(t, "semmut") {
+	case 0, 1:
+		c.Mems, c.Datas, c.DataCnt = nil, nil, false
+		dropExports(wasmenc.KMem)
+		return c.Encode(), "sem-drop-memory"
+	case 2:
+		c.Tables, c.Elems = nil, nil
+		dropExports(wasmenc.KTable)
+		return c.Encode(), "sem-drop-tables"
+	case 3:
+		if len(c.Globals) > 0 {
+			c.Globals = c.Globals[:len(c.Globals)-1]
+			var e []wasmenc.Export
+			for _, x := range c.Exports {
+				if !(x.Kind == wasmenc.KGlobal && int(x.Idx) == len(c.Globals)) {
+					e = append(e, x)
+				}
+			}
+			c.Exports = e
+		}
+		return c.Encode(), "sem-drop-global"
+	case 4:
+		if len(c.Funcs) > 0 && len(c.Types) > 1 {
+			i := rapid.IntRange(0, len(c.Funcs)-1).Draw(t, "fn")
+			c.Funcs[i].Type = uint32(rapid.IntRange(0, len(c.Types)-1).Draw(t, "ty"))
+		}
+		return c.Encode(), "sem-retype-function"
+	case 5:
+		if len(c.Funcs) > 1 {
+			i := rapid.IntRange(0, len(c.Funcs)-1).Draw(t, "fa")
+			j := rapid.IntRange(0, len(c.Funcs)-1).Draw(t, "fb")
+			c.Funcs[i].Body, c.Funcs[j].Body = c.Funcs[j].Body, c.Funcs[i].Body
+			c.Funcs[i].Locals, c.Funcs[j].Locals = c.Funcs[j].Locals, c.Funcs[i].Locals
+		}
+		return c.Encode(), "sem-swap-bodies"
+	default:
+		// only module-defined functions: a start function that is an imported host function is
+		// the class of the open finding C03-compiler-reexported-host-function (same root cause)
+		if n := len(c.Funcs); n > 0 {
+			c.Start = wasmenc.P(c.NumImportedFuncs() + uint32(rapid.IntRange(0, n-1).Draw(t, "start")))
+			evid.Label("excluded-start-function-is-host-import", 0)
+		}
+		return c.Encode(), "sem-set-start"
+	}
+}
+
+func propSemantic(t *rapid.T) {
+	f := featureSets[rapid.IntRange(1, 2).Draw(t, "feat")]
+	gf, feats := genFeat(f)
+	cfg := smallCfg(t, gf)
+	cfg.MaxFuncs, cfg.MaxStmts, cfg.MaxDepth = rapid.IntRange(1, 4).Draw(t, "mf"), rapid.IntRange(2, 6).Draw(t, "ms"), rapid.IntRange(2, 5).Draw(t, "md")
+	m := wasmgen.Generate(t, cfg)
+	in, op := semanticMutation(t, m.Enc)
+	c := &Case{Input: in, Features: uint64(feats), Origin: "semantic:" + op}
+	evid.Journal(c)
+	finish(t, c, RunCase(c))
 }
 
 func propMutated(t *rapid.T) {
@@ -613,7 +694,7 @@ func TestValidAccepted(t *testing.T) {
 	if evid.ReplayPath() != "" {
 		t.Skip()
 	}
-	evid.Check(t, "valid-accepted", evid.Scale(2000, 150000), propValid)
+	evid.Check(t, "valid-accepted", evid.Scale(5000, 300000), propValid)
 }
 
 func TestMutated(t *testing.T) {
@@ -621,6 +702,13 @@ func TestMutated(t *testing.T) {
 		t.Skip()
 	}
 	evid.Check(t, "mutated", evid.Scale(8000, 1200000), propMutated)
+}
+
+func TestSemantic(t *testing.T) {
+	if evid.ReplayPath() != "" {
+		t.Skip()
+	}
+	evid.Check(t, "semantic-mutation", evid.Scale(6000, 500000), propSemantic)
 }
 
 func TestRaw(t *testing.T) {
@@ -699,6 +787,33 @@ func TestKnownReexportedHostFunction(t *testing.T) {
 			c := &Case{Input: bin, Features: uint64(wz.AllFeatures), Origin: "known:reexported-host-function"}
 			if evid.Finding("C03-compiler-reexported-host-function", "known-reexported-host-function", c,
 				"calling an export that aliases an imported host function on the %s: %v %v", eng, out, res) {
+				t.Fail()
+			}
+		}
+	}
+	// variant: the start function is an imported host function
+	m2 := &wasmenc.Module{}
+	h2 := m2.ImportFunc("env", "s", nil, nil)
+	m2.Start = wasmenc.P(h2)
+	bin2 := m2.Encode()
+	for _, eng := range wz.Engines {
+		rt := wazero.NewRuntimeWithConfig(ctx, wz.Config(eng))
+		rt.NewHostModuleBuilder("env").NewFunctionBuilder().WithGoModuleFunction(api.GoModuleFunc(func(ctx context.Context, mod api.Module, s []uint64) {}), nil, nil).Export("s").Instantiate(ctx)
+		var out wz.Outcome
+		func() {
+			defer func() {
+				if r := recover(); r != nil {
+					out = wz.Outcome{Kind: wz.KInternal, Detail: fmt.Sprintf("panic escaped Instantiate: %v", r)}
+				}
+			}()
+			_, err := rt.Instantiate(ctx, bin2)
+			out = wz.Classify(err)
+		}()
+		rt.Close(ctx)
+		if out.Kind == wz.KInternal {
+			c := &Case{Input: bin2, Features: uint64(wz.AllFeatures), Origin: "known:start-is-host-import"}
+			if evid.Finding("C03-compiler-reexported-host-function", "known-reexported-host-function", c,
+				"instantiating a module whose start function is an imported host function on the %s: %v", eng, out) {
 				t.Fail()
 			}
 		}
